@@ -496,3 +496,41 @@ def remove_solvent(ctx, case):
         ctx.ensure("inplace=False:result-coordinate-buffer-is-fresh", r is not t and r.fields["_xyz"].buf != src["_xyz"].buf)
         ctx.ensure("inplace=False:source-fields-untouched", all(t.fields[f] is src[f] for f in FIELDS))
     ctx.ensure("inv_traj(result):cache-clause", cache_ok(r))
+
+
+@contract("C03", "mdtraj/core/trajectory.py", "Trajectory.__getitem__|__add__(delegation)", cases=["getitem", "add"], replay="ops")
+def delegations(ctx, case):
+    """t[key] is t.slice(key) with copy=True, a + b is a.join(b), restrict_atoms(idx, inplace) is atom_slice(idx, inplace): the
+    operators inherit the contracts of the methods they delegate to (checked as: exactly that one call, result returned)"""
+    install(ctx)
+    F = ctx.int("F")
+    ctx.assume(F >= 2)
+    t, mod = TM.make_traj(ctx, F, 5)
+    cls = mod.globals["Trajectory"]
+    calls = []
+    marker = object()
+
+    def rec(name):
+        def model(interp, args, kwargs):
+            calls.append((name, args[1:], dict(kwargs)))
+            return marker
+        return model
+
+    for m in ("slice", "join", "atom_slice"):
+        ctx.interp.call_models[f"{mod.name}.Trajectory.{m}"] = rec(m)
+    if case == "getitem":
+        key = ctx.int("key")
+        out = ctx.call_method(t, "__getitem__", key)
+        ok = calls == [("slice", [key], {})] or (len(calls) == 1 and calls[0][0] == "slice" and calls[0][1] == [key] and calls[0][2].get("copy", True) is True)
+    elif case == "add":
+        other, _ = TM.make_traj(ctx, F, 5, name="o")
+        out = ctx.call_method(t, "__add__", other)
+        ok = len(calls) == 1 and calls[0][0] == "join" and calls[0][1] == [other] and not calls[0][2]
+    else:
+        idx = TArr("idx", shape=(2,), dtype="int32")
+        inplace = ctx.bool("inplace")
+        out = ctx.call_method(t, "restrict_atoms", idx, inplace=inplace)
+        ok = len(calls) == 1 and calls[0][0] == "atom_slice" and calls[0][1] == [idx] and calls[0][2].get("inplace") is inplace
+    ctx.ensure("no-exception", not out.raised)
+    ctx.ensure("delegates-with-the-same-arguments-exactly-once", ok)
+    ctx.ensure("returns-the-delegate's-result", (not out.raised) and out.value is marker)
